@@ -271,6 +271,10 @@ class Conversion(object):
 
     @classmethod
     def _xyz2whd(cls, s_x, s_y, s_z):
+        # the sizes are at most 1, but can exceed it by rounding error, which
+        # would result in NaNs below
+        s_x, s_y, s_z = min(s_x, 1.0), min(s_y, 1.0), min(s_z, 1.0)
+
         width_from_sx = 2 * np.degrees(np.arcsin(s_x))
         width_from_sy = 2 * np.degrees(np.arccos(1 - 2 * s_y))
 
